@@ -306,7 +306,7 @@ def check(run, tier):
     E.rsa_pair()
     S.make_cert(1, "client")
     n = common.NCPU
-    nreq = 120 if quick else 1500
+    nreq = 300 if quick else 1500
     with multiprocessing.Pool(n) as pool:
         outs = pool.map(_history, [(i, common.SEED * 31 + i, nreq) for i in range(n)])
     recs = [x for o in outs for x in o]
